@@ -374,12 +374,77 @@ def anchor_blocks(b, lp, anchors):
                 if callee_method(t) == m and (not recv or (t["args"] and recv in norm(b.expr(t["args"][0])))):
                     out.add(x)
             elif a.startswith("assign:"):
-                lhs, _, rhs = a[7:].partition("=")
+                spec, _, cond = a[7:].partition(" @ ")
+                lhs, _, rhs = spec.partition("=")
                 for st in b.stmts(x):
                     if st["k"] == "assign" and "use" in st["rv"]:
                         if norm(b.expr(st["lhs"])) == lhs and norm(b.expr(st["rv"]["use"])) == rhs:
-                            out.add(x)
+                            if _anchor_condition(b, lp, x, st, cond):
+                                out.add(x)
     return out
+
+
+def _anchor_condition(b, lp, x, st, cond):
+    """side conditions of an arithmetic anchor:
+       ''            none
+       'X > 0'       the anchor block is reachable (inside the loop) only through the true edge of `X > 0`
+       'nonzero(Y)'  Y (the step) is provably >= 1 at the anchor"""
+    cond = cond.strip()
+    if not cond:
+        return True
+    if cond.startswith("nonzero(") and cond.endswith(")"):
+        name = cond[8:-1]
+        return _nonzero_named(b, x, name)
+    if cond.endswith("> 0"):
+        ex = cond[:-3].strip()
+        cut = edges_where(b, lambda truth, src, a, s: src is not None and src[0] == "bin" and (
+            (src[1]["bin"] == "Gt" and truth is True and norm(b.expr(src[1]["a"])) == ex and norm(b.expr(src[1]["b"])) == "0_usize") or
+            (src[1]["bin"] == "Ne" and truth is True and norm(b.expr(src[1]["a"])) == ex and norm(b.expr(src[1]["b"])) == "0_usize") or
+            (src[1]["bin"] == "Eq" and truth is False and norm(b.expr(src[1]["a"])) == ex and norm(b.expr(src[1]["b"])) == "0_usize")))
+        return unreachable_without_edges(b, x, cut)
+    return False
+
+
+def _nonzero_named(b, at_bb, name):
+    for l, loc in enumerate(b.locals):
+        if loc.get("name") == name:
+            defs = [r for r in b.defs()[l] if r[0] in ("stmt", "call")]
+            return bool(defs) and all(_nonzero_def(b, r, at_bb, 4) for r in defs)
+    return False
+
+
+def _nonzero_def(b, rec, at_bb, depth):
+    if depth <= 0:
+        return False
+    if rec[0] == "call":
+        t = rec[2]
+        m = callee_method(t)
+        if m == "min":
+            return all(_nonzero_op(b, a, rec[1], depth - 1) for a in t["args"])
+        if m == "max":
+            return any(_nonzero_op(b, a, rec[1], depth - 1) for a in t["args"])
+        return False
+    rv = rec[3].get("rv") or {}
+    if "use" in rv:
+        return _nonzero_op(b, rv["use"], rec[1], depth - 1)
+    return False
+
+
+def _nonzero_op(b, op, at_bb, depth):
+    k = op_const(op)
+    if k is not None:
+        return (k.get("int") or 0) >= 1
+    pl = op_place(op)
+    ex = norm(b.expr(op))
+    # guarded by a dominating `ex > 0`
+    g = panics._cmp_guards(b, at_bb)
+    if panics.implies_ge_const(g, ex, 1) or panics.implies_ne_zero(g, ex):
+        return True
+    if pl is not None and is_bare(pl):
+        defs = [r for r in b.defs()[pl["l"]] if r[0] in ("stmt", "call")]
+        if len(defs) == 1:
+            return _nonzero_def(b, defs[0], at_bb, depth)
+    return False
 
 
 def rule_c(ctx, rid, body_filter):
